@@ -9,7 +9,7 @@
 (* one run reports all deviations.  No expectation is computed outside the *)
 (* specification modules this module extends.                              *)
 (***************************************************************************)
-EXTENDS Bytes, Prim, HdwIO, Numbers, Rlp, Ecdsa, Tx, Bip39, HdPath, Bip32, SigText, Json, IOUtils, TLC, FiniteSets
+EXTENDS Bytes, Prim, HdwIO, Numbers, Rlp, Ecdsa, Tx, Bip39, HdPath, Bip32, SigText, Eip191, HexCodec, Eip712, Json, IOUtils, TLC, FiniteSets
 
 Rec == ndJsonDeserialize(IOEnv.HDW_TRACE)
 
@@ -182,6 +182,54 @@ JudgeSigParse(e) ==
           ELSE {})]
 
 -----------------------------------------------------------------------------
+\* message : in = [data]   out.ok = [digest]
+JudgeMessage(e) ==
+  LET o == e.out
+      m == IF Has(e.in, "rep") THEN [i \in 1..e.in.rep |-> (i * 31 + e.in.rep) % 256] ELSE Hx(e.in.data)
+  IN  [cls |-> "accept",
+       devs |-> CrashDevs(o) \cup
+         (IF IsOk(o) /\ Hx(o.ok.digest) = PersonalDigest(m) THEN {}
+          ELSE {D({"C10"}, "personal_digest", IF IsOk(o) THEN o.ok.digest ELSE "no digest")})]
+
+\* typeddata : in = [doc]   out.ok = [domsep, msghash, digest]
+TdRejectProps(why) == IF why \in {"domain_type", "no_domain_type"} THEN {"C20"} ELSE {"C09"}
+JudgeTypedData(e) ==
+  LET o  == e.out
+      oc == TypedDataOutcome(e.in.doc)
+  IN  [cls |-> oc.c,
+       devs |-> CrashDevs(o) \cup
+         (IF IsOk(o) THEN
+            (IF oc.c = "reject" THEN {D(TdRejectProps(oc.why), "accepted_" \o oc.why, "")}
+             ELSE IF oc.c \in {"accept", "either"} THEN
+               (IF Hx(o.ok.domsep) # oc.domsep THEN {D({"C08", "C20"}, "domain_separator", o.ok.domsep)} ELSE {})
+               \cup (IF Hx(o.ok.msghash) # oc.msghash THEN {D({"C08"}, "message_hash", o.ok.msghash)} ELSE {})
+               \cup (IF Hx(o.ok.digest) # oc.digest THEN {D({"C08"}, "signing_digest", o.ok.digest)} ELSE {})
+             ELSE {})
+          ELSE IF IsErr(o) THEN (IF oc.c = "accept" THEN {D({"C08", "C20"}, "rejected_conforming", o.err)} ELSE {})
+          ELSE IF oc.c = "accept" THEN {D({"C08"}, "crash_accept", "")}
+          ELSE IF oc.c = "reject" THEN {D(TdRejectProps(oc.why), "crash_reject", "")}
+          ELSE {})]
+
+\* hooks: eip712.encode_type : in = [types (AST), kind]   out.ok.text
+JudgeEncodeType(e) ==
+  LET o == e.out
+      ok == WellShapedTypes(e.in.types)
+      types == TypesOf(e.in.types)
+      judged == ok /\ ClosureDefined(types, e.in.kind) /\ ~ClosureOpen(types, e.in.kind)
+  IN  [cls |-> IF judged THEN "accept" ELSE "open",
+       devs |-> CrashDevs(o) \cup
+         (IF judged /\ ~(IsOk(o) /\ StrToUtf8(o.ok.text) = EncodeType(types, e.in.kind))
+          THEN {D({"C08"}, "encode_type", IF IsOk(o) THEN o.ok.text ELSE "error")} ELSE {})]
+\* hooks: eip712.member_kind : in = [text]   out.ok = [debug, display]
+JudgeMemberKind(e) ==
+  LET o  == e.out
+      kd == ParseType(StrToUtf8(e.in.text))
+  IN  [cls |-> IF HasOpen(kd) THEN "open" ELSE "accept",
+       devs |-> CrashDevs(o) \cup
+         (IF ~HasOpen(kd) /\ ~(IsOk(o) /\ StrToUtf8(o.ok.display) = PrintType(kd))
+          THEN {D({"C08"}, "member_kind_print", IF IsOk(o) THEN o.ok.display ELSE "error")} ELSE {})]
+
+-----------------------------------------------------------------------------
 \* hook sweeps of the private RLP primitives: out.ok.hex must be the spec encoding
 Exact(e, expected, props, reason) ==
   LET o == e.out IN
@@ -268,6 +316,10 @@ JudgeEvent(e) ==
          [] e.op = "key.new"         -> JudgeKeyNew(e)
          [] e.op = "key.sign"        -> JudgeKeySign(e)
          [] e.op = "sig.parse"       -> JudgeSigParse(e)
+         [] e.op = "message"         -> JudgeMessage(e)
+         [] e.op = "typeddata"       -> JudgeTypedData(e)
+         [] e.op = "eip712.encode_type" -> JudgeEncodeType(e)
+         [] e.op = "eip712.member_kind" -> JudgeMemberKind(e)
          [] e.op = "rlp.len"   -> JudgeRlpLen(e)
          [] e.op = "rlp.bytes" -> JudgeRlpBytes(e)
          [] e.op = "rlp.uint"  -> JudgeRlpUint(e)
